@@ -329,5 +329,6 @@ CLAIM = {
             "format, options of individual diagrams beyond the shared machinery.",
     "technique": "static analysis: def-use chain from option branch to attribute store to attribute load to call argument; guard/use "
                  "contradiction rule; modulo-own-length rule; who-may-call (pyplot state functions inside _adjust_axis = 0); truth-table comparison "
-                 "of the tight-cropping condition; truthiness lint on zero-or-None metric attributes",
+                 "of the tight-cropping condition; truthiness lint on zero-or-None metric attributes; ORDER rule on the event log of _adjust_axis "
+                 "(limits after the ticks of the same axis); option branches by value (c13.option_effects)",
 }
